@@ -140,8 +140,10 @@ void Proto::onRecvJson(const Json &js)
         }
 
     } else if (js.is_array()) {
+        //! 批量请求，其成员只能是 object。不接受数组再嵌套数组，防止恶意数据引起无限递归
         for (auto &js_item : js) {
-            onRecvJson(js_item);
+            if (js_item.is_object())
+                onRecvJson(js_item);
         }
     }
 }
